@@ -121,6 +121,9 @@ def run(name, tier, props, seed):
         for p in props:
             t0 = time.time()
             env = dict(os.environ, VERIF_SEED=str(seed), VERIF_REPO=wt)
+            key_suffix = ""
+            if os.environ.get("VERIF_SCALE"):
+                key_suffix = "/scale" + os.environ["VERIF_SCALE"]
             pr = subprocess.run([os.path.join(VERIF, "check"), p, "--tier", tier], cwd=VERIF, env=env, stdout=subprocess.PIPE, stderr=subprocess.STDOUT, text=True)
             lines = pr.stdout.splitlines()
             viol = [l for l in lines if l.startswith("VIOLATION")]
@@ -134,7 +137,8 @@ def run(name, tier, props, seed):
         shutil.rmtree(alt, ignore_errors=True)
     mp = os.path.join(d, "meta.json")
     meta = json.load(open(mp))
-    meta.setdefault("checks_run", {}).setdefault("%s/seed%d" % (tier, seed), {}).update(results)
+    suffix = ("/scale" + os.environ["VERIF_SCALE"]) if os.environ.get("VERIF_SCALE") else ""
+    meta.setdefault("checks_run", {}).setdefault("%s/seed%d%s" % (tier, seed, suffix), {}).update(results)
     json.dump(meta, open(mp, "w"), indent=1)
     return 0
 
